@@ -108,6 +108,7 @@ class ScriptStream(StreamInterface):
     def __init__(self, script, seed):
         self._script = list(script)
         self._pos = 0
+        self._seed0 = seed
         self._tail = random.Random(seed)
         self._random = self
         self.delivered = []
@@ -131,16 +132,19 @@ class ScriptStream(StreamInterface):
         return MersenneTwister.next_int(self, lo, hi)
 
     def seed(self):
-        return 0
+        return self._seed0
 
     def original_seed(self):
-        return 0
+        return self._seed0
 
     def set_seed(self, seed):
-        pass
+        """re-seeding rewinds: the script is delivered again, then the tail of that seed"""
+        self._seed0 = seed
+        self._tail = random.Random(seed)
+        self._pos = 0
 
     def reset(self):
-        pass
+        self.set_seed(self._seed0)
 
     def save_state(self):
         return None
@@ -155,6 +159,11 @@ class _ScriptRandom(random.Random):
         self._script = list(script)
         self._pos = 0
         self._delivered = delivered
+
+    def seed(self, *a, **k):
+        """MersenneTwister.set_seed / reset re-seed this object: the script is delivered again as well"""
+        super().seed(*a, **k)
+        self._pos = 0
 
     def random(self):
         if self._pos < len(self._script):
@@ -218,7 +227,15 @@ def run_case(case):
                 mine = after[sid] - before[sid] if sid is not None and 0 <= sid < len(streams) else 0
                 other = sum(a - b for a, b in zip(after, before)) - mine
                 return mine, other
-            if kind == "new":
+            if kind == "reset":
+                # rewind a stream (replication loop): everything it delivers afterwards is appended to `delivered`
+                _, sid, how = op
+                if how == "set_seed":
+                    streams[sid].set_seed(streams[sid].seed())
+                else:
+                    streams[sid].reset()
+                outs.append(["reset"])
+            elif kind == "new":
                 _, i, cname, sok, sid, params = op
                 stream = streams[sid] if sok else (None if sid % 2 == 0 else 5)
                 try:
